@@ -38,6 +38,8 @@ def gen(rng, tier, no, wide=False):
     force = {}
     if rng.random() < 0.5:
         force = {"nstreams": rng.choice([2, 3]), "launch_rate": 0.6, "memcpy_rate": rng.choice([0.2, 0.4])}
+    if rng.random() < 0.15:
+        force["stream_zero"] = True
     case = C.gen_with(rng, C.every_rank_has_device, **force)
     case["params"] = {"num_kernels": rng.choice([1, 1, 2, 2, 3, 4, 5, 8, 12]),
                       "duration_ratio": rng.choice([0.01, 0.2, 0.5, 0.8, 0.8, 0.9, 0.99, 1.0]),
